@@ -10,6 +10,7 @@ import (
 	"github.com/KevoDB/kevo/pkg/common/iterator/composite"
 	"github.com/KevoDB/kevo/pkg/config"
 	"github.com/KevoDB/kevo/pkg/sstable"
+	"github.com/KevoDB/kevo/pkg/verifhook"
 )
 
 // DefaultCompactionExecutor handles the actual compaction process
@@ -66,6 +67,7 @@ func (e *DefaultCompactionExecutor) CompactFiles(task *CompactionTask) ([]string
 				return fmt.Errorf("failed to finish SSTable: %w", err)
 			}
 			outputFiles = append(outputFiles, currentOutputPath)
+			verifhook.Point("compact.output_done")
 		}
 
 		// Create a new output file
@@ -158,6 +160,7 @@ func (e *DefaultCompactionExecutor) CompactFiles(task *CompactionTask) ([]string
 			return nil, fmt.Errorf("failed to finish SSTable: %w", err)
 		}
 		outputFiles = append(outputFiles, currentOutputPath)
+		verifhook.Point("compact.output_done")
 	} else if currentWriter != nil {
 		// No entries were written, abort the file
 		currentWriter.Abort()
@@ -172,6 +175,7 @@ func (e *DefaultCompactionExecutor) DeleteCompactedFiles(filePaths []string) err
 		if err := os.Remove(path); err != nil {
 			return fmt.Errorf("failed to delete compacted file %s: %w", path, err)
 		}
+		verifhook.Point("compact.input_deleted")
 	}
 	return nil
 }
